@@ -1479,7 +1479,8 @@ def _load_memmap(cls, prefix: Path, metadata: dict, **kwargs):
 
 
 def __enter__(self, *args, **kwargs):
-    return self._tensordict.__enter__(*args, **kwargs)
+    self._tensordict.__enter__(*args, **kwargs)
+    return self
 
 
 def __exit__(self, *args, **kwargs):
